@@ -91,7 +91,7 @@ type linkModelArea struct{}
 // Run executes one line with `dst -> real`.
 func (linkModelArea) Run(line string) string {
 	return guarded(func() string {
-		o := execute(line, true)
+		o := execute(line, strings.Contains(line, " dl:"))
 		if o.bad {
 			return "bad-op"
 		}
@@ -101,8 +101,19 @@ func (linkModelArea) Run(line string) string {
 
 // Gen emits the sandboxes of linkArea, marked `dl:1`.
 func (linkModelArea) Gen(r *hx.Rng, n int, tier string, emit func(string)) {
-	k := 0
-	linkArea{}.Gen(r, n, tier, func(s string) { k++; emit(fmt.Sprintf("%s dl:%d", s, 1+k%5)) })
+	priv := os.Geteuid() == 0
+	for i := 0; i < n; i++ {
+		switch {
+		case i%2 == 0: // the destination itself is a link (7 shapes; 6 and 7 are chains of 40 and 41 links)
+			k := 1 + (i/2)%5
+			if i%40 == 38 {
+				k = 6 + (i/40)%2
+			}
+			emit(fmt.Sprintf("%s dl:%d", genLine(r, priv, true), k))
+		default: // the destination's parent is missing / a link / a chain of links / an absolute link
+			emit(fmt.Sprintf("%s dp:%d", genLine(r, priv, false), 1+(i/2)%4))
+		}
+	}
 }
 
 // Run of linkArea: the same sandbox and archive twice — once with `dst` a symbolic link to the sibling directory `real`
@@ -174,9 +185,27 @@ func execute(line string, dstLink bool) (o outcome) {
 		o.bad = true
 		return
 	}
+	dlKind := 1 // how `dst` points at `real` when it is a link (dl:<k>)
+	dpKind := 0 // the destination is T/p/dst: 1 = p missing, 2 = p -> q, 3 = p -> m -> q, 4 = p -> /tmp/T/q (dp:<k>)
+	for _, w := range f[2:] {
+		if strings.HasPrefix(w, "dl:") {
+			dlKind = hx.Atoi(w[3:])
+		}
+		if strings.HasPrefix(w, "dp:") {
+			dpKind = hx.Atoi(w[3:])
+		}
+	}
+	// place maps the sandbox's `dst/…` to where it physically lives; "" = it cannot exist (dp:1)
 	place := func(rel string) string {
-		if dstLink && (rel == "dst" || strings.HasPrefix(rel, "dst/")) {
-			return "real" + rel[3:]
+		if rel == "dst" || strings.HasPrefix(rel, "dst/") {
+			switch {
+			case dstLink:
+				return "real" + rel[3:]
+			case dpKind == 1:
+				return ""
+			case dpKind >= 2:
+				return "q/" + rel
+			}
 		}
 		return rel
 	}
@@ -193,7 +222,19 @@ func execute(line string, dstLink bool) (o outcome) {
 	limit := -1
 	via := ""
 	times := 1
-	dlKind := 1 // how `dst` points at `real` when it is a link (dl:<k>)
+	if dpKind >= 2 {
+		must(os.Mkdir(filepath.Join(t, "q"), 0o755))
+		switch dpKind {
+		case 3:
+			must(os.Symlink("q", filepath.Join(t, "m")))
+			must(os.Symlink("m", filepath.Join(t, "p")))
+		case 4:
+			must(os.Symlink(filepath.Join(t, "q"), filepath.Join(t, "p")))
+		default:
+			must(os.Symlink("q", filepath.Join(t, "p")))
+		}
+	}
+	skip := func(rel string) bool { return place(rel) == "" }
 	for _, w := range f[2:] {
 		p := strings.Split(w, ":")
 		switch {
@@ -201,8 +242,9 @@ func execute(line string, dstLink bool) (o outcome) {
 			via = p[1]
 		case p[0] == "r" && len(p) == 2:
 			times = hx.Atoi(p[1])
-		case p[0] == "dl" && len(p) == 2:
-			dlKind = hx.Atoi(p[1])
+		case (p[0] == "dl" || p[0] == "dp") && len(p) == 2:
+		case p[0] == "i" && len(p) >= 3 && skip(string(hx.UnHex(p[2]))):
+			// below a destination whose parent does not exist
 		case p[0] == "w" && len(p) == 2:
 			limit = hx.Atoi(p[1])
 		case p[0] == "i" && p[1] == "d" && len(p) == 4:
@@ -215,6 +257,7 @@ func execute(line string, dstLink bool) (o outcome) {
 			must(os.Chmod(path, modeOf(oct(p[3]))))
 		case p[0] == "i" && p[1] == "s" && len(p) == 4:
 			must(os.Symlink(subst(string(hx.UnHex(p[3]))), filepath.Join(t, place(string(hx.UnHex(p[2]))))))
+		case p[0] == "i" && p[1] == "h" && len(p) == 4 && skip(string(hx.UnHex(p[3]))):
 		case p[0] == "i" && p[1] == "h" && len(p) == 4:
 			must(os.Link(filepath.Join(t, place(string(hx.UnHex(p[3])))), filepath.Join(t, place(string(hx.UnHex(p[2]))))))
 		case p[0] == "e" && len(p) == 8:
@@ -226,8 +269,21 @@ func execute(line string, dstLink bool) (o outcome) {
 		}
 	}
 	dst := filepath.Join(t, "dst")
+	if dpKind > 0 {
+		dst = filepath.Join(t, "p", "dst")
+	}
 	if dstLink {
 		switch dlKind {
+		case 6, 7: // a chain of 40 links is followed, the 41st gives ELOOP
+			n := 34 + dlKind
+			for i := 1; i < n; i++ {
+				tg := fmt.Sprintf("c%d", i+1)
+				if i == n-1 {
+					tg = "real"
+				}
+				must(os.Symlink(tg, filepath.Join(t, fmt.Sprintf("c%d", i))))
+			}
+			must(os.Symlink("c1", dst))
 		case 2: // absolute
 			must(os.Symlink(filepath.Join(t, "real"), dst))
 		case 3: // with dots and a trailing slash
